@@ -18,6 +18,7 @@ let tok_s = function
   | TP (i, a) -> Printf.sprintf "P%s=%s" (si i) (si a)
   | TR (i, c) -> Printf.sprintf "R%s:%s" (si i) (if int_of_n c = 0 then "osvbngd_restart" else "vpp_recovery")
   | TL i -> "L" ^ si i ^ ":released" | TDEL i -> "DEL" ^ si i | TSP i -> "sp" ^ si i | TSD i -> "sd" ^ si i
+  | TSPF i -> "spF" ^ si i | TCKSERR -> "CKSERR"
 let log_s l = join_or_dash (List.map tok_s l)
 let by_key l = List.sort (fun (a, _) (b, _) -> compare (int_of_n a) (int_of_n b)) l
 let rec dedup_keys seen = function
@@ -74,7 +75,11 @@ let () =
             | "ck" -> Some (Ck (ni (int_of_string a.(1))))
             | "cks" -> Some (Cks (ni (int_of_string a.(1))))
             | "rel" -> Some (Rel (ni (int_of_string a.(1))))
-            | "done" -> Some (Done (ni (int_of_string a.(1))))
+            | "done" ->
+              let retried = k < Array.length segs && String.trim segs.(k) = "done retry" in
+              Some (Done (ni (int_of_string a.(1)), retried))
+            | "poison" -> Some (Poison (ni (int_of_string a.(1)), Array.length a > 2 && a.(2) = "a"))
+            | "cksf" -> Some (CksF (ni (int_of_string a.(1))))
             | "crash" ->
               let fail = if Array.length a > 2 then Some (ni (int_of_string a.(2))) else None in
               Some (Crash (a.(1) = "p", fail, Z0))
@@ -100,11 +105,11 @@ let () =
                  | ONew (a4, a6, apd, x4, x6, xpd) ->
                    let f a x = if x then "x" else opt_s a in
                    Printf.sprintf "new %s %s %s" (f a4 x4) (f a6 x6) (f apd xpd)
-                 | OSkip -> "skip"
+                 | OSkip -> if a.(0) = "poison" then "poison" else "skip"
                  | OCk (t, lg) -> Printf.sprintf "ck %s %s" (si t) (log_s lg)
                  | OCks (t, lg) -> Printf.sprintf "cks %s %s" (si t) (log_s lg)
                  | ORel lg -> "rel " ^ log_s lg
-                 | ODone -> "done"
+                 | ODone rt -> if a.(0) = "poison" then "poison" else if rt then "done retry" else "done"
                  | OCrash lg -> Printf.sprintf "crash %s live=%s store=%s" (log_s lg) (sessions_s proto s'.live)
                                   (sessions_s proto s'.store) in
                outs := txt :: !outs)) ops;
